@@ -331,7 +331,7 @@ func runC14(c *fw.Ctx) {
 	// two faults far apart: a statement with a token missing, spread over lines, a block of blank
 	// lines that reaches a power of ten somewhere in it, and a character the lexer does not know
 	// later in the same statement (the lexer reports its error while the parser is still looking ahead)
-	for i := 0; i < c.N(120, 2400); i++ {
+	for i := 0; i < c.N(1200, 12000); i++ {
 		id := "twoerrors/" + itoa(i)
 		if !c.Want(4_600_000+i, id) {
 			continue
@@ -342,6 +342,16 @@ func runC14(c *fw.Ctx) {
 		toks = append(toks[:drop:drop], toks[drop+1:]...)
 		g1 := r.Intn(len(toks))
 		g2 := g1 + r.Intn(len(toks)-g1)
+		if i%2 == 0 {
+			// the unknown character right where the token is missing, the blank lines just before it
+			// (the token that follows the missing one stays on its line; the blank lines and the
+			// unknown character come right after it)
+			g1 = drop + 1
+			if g1 >= len(toks) {
+				g1 = len(toks) - 1
+			}
+			g2 = g1
+		}
 		blanks := []int{98, 99, 100, 998, 999, 1000, 1001, 1002, 9998, 9999, 10000, 10001}[r.Intn(12)] - r.Intn(4)
 		lead := r.Intn(6)
 		var b strings.Builder
